@@ -702,7 +702,7 @@ def c19_chunk(args):
     from sim import boot
     ns = boot.boot()
     out = {"cases": 0, "viol": [], "interleavings": 0, "steps": 0, "samples": [], "digests": set(), "probes": {}}
-    fams = ["publisher", "subscriber", "general", "persistent", "clean", "window", "qos2", "subreq", "closing", "keepalive"]
+    fams = ["publisher", "subscriber", "general", "persistent", "clean", "window", "qos2", "subreq", "closing", "keepalive", "resume"]
     for i in range(start, start + count):
         seed = base + i
         rng = random.Random(seed)
